@@ -13,6 +13,7 @@ PROP = {
         "quick": [B("stable"), B("nightly", 0.25, False)],
         "thorough": [B("stable"), B("nightly", 0.5, False)],
     },
+    "volume": {"quick": 4},
     "technique": "property-based testing: proptest generators of cameras, frusta, boxes and matrices; oracles are the documented contracts stated independently in f64 "
                  "(double-double for the f64 types) with tolerances k*u*sum|terms| computed from the reference's own terms; SSE2, scalar-math, nightly core-simd builds (libm in thorough)",
     "level_text": "Generated-input search: for every generated camera each look_to/look_at form must be rigid (M^T M = I, det +1 within 16u/sin(dir,up)), send the eye to the origin, "
